@@ -260,6 +260,28 @@ Lemma grpc_window_spins_when_walking_every_slot :
   grpc_stream_window true false 1 0 true 0 (Some 36028797018963968%N) = GSpins.
 Proof. vm_compute. reflexivity. Qed.
 
+(* Index-accelerated path: every found transaction goes into the ordered buffer under (slot, position index).
+   The position index is OPTIONAL in the archive format (ledger.ipldsch: `index nullable optional Int`); the pinned
+   code dereferences it unconditionally, inside a goroutine, so an epoch written before the field existed ends the
+   process; the repaired code answers Internal. *)
+Definition grpc_buffer_add (index_checked : bool) (position : option N) : grpc_outcome :=
+  match position with
+  | Some _ => GStreams
+  | None => if index_checked then GStreams (* an error status, the stream ends *) else GPanic 15
+  end.
+Theorem grpc_position_index_checked position : forall s, grpc_buffer_add true position <> GPanic s.
+Proof. intros s. destruct position; discriminate. Qed.
+Lemma grpc_absent_position_index_panics_when_unchecked : grpc_buffer_add false None = GPanic 15.
+Proof. reflexivity. Qed.
+
+(* getBlock, rewards: a commission STRING is turned into a number; pinned: panic when it is not one *)
+Definition reward_commission (checked : bool) (is_number : bool) : reply :=
+  if is_number then RProceeds else if checked then RProceeds else RPanic 16.
+Theorem reward_commission_checked is_number : forall s, reward_commission true is_number <> RPanic s.
+Proof. intros s. destruct is_number; discriminate. Qed.
+Lemma reward_commission_panics_when_unchecked : reward_commission false false = RPanic 16.
+Proof. reflexivity. Qed.
+
 (* ---------- REST front: /api/v1/slot-to-cid/{slot} and /api/v1/sig-to-cid/{sig} (api.go) ---------- *)
 Inductive api_req :=
 | ApiNotGet
